@@ -20,8 +20,10 @@
      dec:  accepted => the decoded values are exactly what the bytes say on all non-reserved bits
            (Pack(Items(d)) = in masked) and re-serializing reproduces them on the non-reserved bits;
            declared lengths beyond the data => rejected (error, or the truncation flag).
-   Drift only: header-length slack (HdrLen larger than the path needs -- bytes no document assigns
-   to any field; the re-serialization drops them), option alignment.                              *)
+           A header whose declared length (HdrLen) is not exactly common + address + path length is
+           inconsistent: accepting it is a violation (the re-serialization drops the slack bytes and
+           shifts the payload; all header parts are multiples of 4, so slack is never needed).
+   Drift only: option alignment.                                                                  *)
 EXTENDS WireOps, TLC, Json
 
 Trace == ndJsonDeserialize("trace.ndjson")
@@ -87,7 +89,7 @@ DecCheck ==
          ELSE LET packed == Pack(items)
                   mask == MaskOf(items) IN
               IF Masked(SubSeq(b, 1, n), mask) # packed THEN Bad(k \o ":decoded-fields-differ-from-bytes")
-              ELSE IF DeclaredLen(L, R.d) # n THEN Drift(k \o ":declared-header-length-has-slack")
+              ELSE IF DeclaredLen(L, R.d) # n THEN Bad(k \o ":accepts-declared-header-length-with-slack")
               ELSE IF ~R.reserok THEN Bad(k \o ":accepted-but-cannot-reserialize")
               ELSE IF Len(R.reser) # n THEN Bad(k \o ":reserialization-length-differs")
               ELSE IF Masked(R.reser, mask) # packed THEN Bad(k \o ":reserialization-differs")
